@@ -28,7 +28,7 @@ from typing import Any
 
 from .._exceptions import EngineError
 from .._marker_relation import MarkerRelation
-from .._operation_relations import BinaryOperationRelation
+from .._operation_relations import BinaryOperationRelation, UnaryOperationRelation
 from .._operations import Chain, Deduplication, Projection, Slice, Sort
 from .._relation import Relation
 from .._unary_operation import UnaryOperation
@@ -216,6 +216,16 @@ class Select(MarkerRelation):
             target = sort._finish_apply(target)
         if projection is not None:
             target = projection._finish_apply(target)
+            if not sort.terms:
+                # Applying the projection directly to ``skip_to`` may have
+                # simplified away operations at the top of it (e.g. a
+                # calculation the projection drops); what the projection
+                # actually acts on is what this Select has to skip to.
+                match target:
+                    case UnaryOperationRelation(operation=Projection(), target=projection_target):
+                        skip_to = projection_target
+                    case _:
+                        skip_to = target
         if deduplication is not None:
             target = deduplication._finish_apply(target)
         if slice.start or slice.limit is not None:
